@@ -139,6 +139,7 @@ def run(ck, F, tier):
     ck.rule("L4", "encode framing")
     ck.rule("L5", "errors, not panics, in the subcommands")
     ck.rule("L6", "ber result lines")
+    ck.rule("L7", "an unreadable alist file ends in an error message, not a panic: the parser the subcommands call is total (the rule C08-P1, run here)")
 
     cli_dvbs2_table(ck, F, "L1")
     cli_ccsds_tables(ck, F, "L2")
@@ -244,6 +245,11 @@ def run(ck, F, tier):
 
     # ---- L5 ---------------------------------------------------------------------------------------
     l5_l6(ck, F, tier)
+    # L7: systematic / encode / ber hand the file's text to SparseMatrix::from_alist; "invalid files give a message rather than a panic"
+    # rests on that parser having no reachable panic
+    from ..report import RuleAlias
+    from . import c08
+    c08.run(RuleAlias(ck, "L7", only=lambda r_, k_: r_ == "P1"), F, "quick")
 
 
 def encode_framing_rules(ck, F, b, t, wr, rd, enc):
